@@ -81,6 +81,10 @@ Theorem C11_effective_vector : forall c tc, adm c tc ->
             match model_type c with
             | HddTiddCddSmooth => x_hdd_bp x - x_hdd_k x = lower_bp lo hi c /\ x_cdd_bp x + x_cdd_k x = upper_bp lo hi c
             | _ => x_hdd_bp x = lower_bp lo hi c /\ x_cdd_bp x = upper_bp lo hi c
+            end /\
+            match model_type c with
+            | HddTiddCdd | HddTidd | TiddCdd | Tidd => x_hdd_k x = 0 /\ x_cdd_k x = 0
+            | _ => True
             end.
 Proof. exact (effective_good lo hi). Qed.
 Print Assumptions C11_effective_vector.
